@@ -115,6 +115,7 @@ type sysC struct {
 	dialPending bool
 	dialYBusy   bool
 	dialYN      int
+	peerDialN   int
 	dialDone    bool
 	dialRes     string
 	dialGen     int
@@ -141,15 +142,18 @@ type sysC struct {
 }
 
 type config struct {
-	name       string
-	initial    string // initial binding of aX
+	name    string
+	initial string // initial binding of aX
 	// alias: every request dials "alias:aX", a string that resolves to aX but
 	// is not the canonical form of the address (like a host name)
-	alias bool
+	alias      bool
 	dialaddr   bool
 	dialtpt    bool
 	estlink    bool
 	constantBO bool // 1 s constant back-off instead of the default exponential one
+	// peerdial: the node currently serving aX may itself connect to L (an
+	// incoming session at L whose remote address is aX), at most twice
+	peerdial bool
 }
 
 func (s *sysC) note(format string, a ...any) {
@@ -249,7 +253,10 @@ func (s *sysC) Enabled() []string {
 	if s.cfg.dialaddr && !s.dialPending {
 		ev = append(ev, "dialaddr")
 	}
-	if s.cfg.dialaddr && !s.dialYBusy && s.dialYN < 1 {
+	if s.cfg.peerdial && s.binding != "-" && s.peerDialN < 2 {
+		ev = append(ev, "peerdial")
+	}
+	if s.cfg.dialaddr && !s.cfg.peerdial && !s.dialYBusy && s.dialYN < 1 {
 		// a legitimate dial of the OTHER peer at the same address (Y may really serve it)
 		ev = append(ev, "dialY")
 	}
@@ -300,6 +307,17 @@ func (s *sysC) Apply(ev string) {
 	switch ev {
 	case "bind:X", "bind:Y", "bind:-":
 		s.bind(strings.TrimPrefix(ev, "bind:"))
+	case "peerdial":
+		n := s.X
+		if s.binding == "Y" {
+			n = s.Y
+		}
+		s.peerDialN++
+		go func() {
+			dctx, cancel := context.WithTimeout(s.ctx, 60*time.Second)
+			defer cancel()
+			_, _, _ = n.Tpt.DialPeer(dctx, s.keys[0].ID, "aL")
+		}()
 	case "dialY":
 		y := s.keys[2].ID
 		s.dialYBusy = true
@@ -511,7 +529,7 @@ func (s *sysC) Canon() string {
 		fmt.Fprintf(&b, " tpt=%v", s.nameList(s.tpt.remotes()))
 	}
 	s.mu.Lock()
-	fmt.Fprintf(&b, " dial=%v/%s dialY=%v/%d", s.dialPending, s.dialRes, s.dialYBusy, s.dialYN)
+	fmt.Fprintf(&b, " dial=%v/%s dialY=%v/%d peerdial=%d", s.dialPending, s.dialRes, s.dialYBusy, s.dialYN, s.peerDialN)
 	s.mu.Unlock()
 	return b.String()
 }
@@ -555,6 +573,8 @@ func TestC05(t *testing.T) {
 		{config{name: "DialPeerAddr(X) and DialPeerAddr(Y) through an alias of aX; aX initially served by Y", initial: "Y", dialaddr: true, alias: true}, 5, 7},
 		{config{name: "all three request kinds; aX initially unbound", initial: "-", dialaddr: true, dialtpt: true, estlink: true}, 4, 6},
 		{config{name: "EstablishLinkWithPeer(X) + DialPeerAddr with a constant 1 s dial back-off; aX initially served by Y", initial: "Y", estlink: true, dialaddr: true, constantBO: true}, 4, 6},
+		{config{name: "DialPeerAddr(X,aX) while the node serving aX may itself connect to L; aX initially unbound", initial: "-", dialaddr: true, peerdial: true}, 5, 7},
+		{config{name: "EstablishLinkWithPeer(X) + DialTptAddr(X,aX) while the node serving aX may itself connect to L; aX initially unbound", initial: "-", estlink: true, dialtpt: true, peerdial: true}, 4, 6},
 	}
 	for i := range scens {
 		sc := scens[i]
@@ -574,7 +594,7 @@ func TestC05(t *testing.T) {
 	}
 	agg.Finish(false)
 	run.Cov["counters"] = map[string]any{"successes_judged": nSuccess.Load(), "standing_requests_judged_at_horizon": nHorizon.Load(), "of_which_satisfied": nSatisfied.Load(), "standing_requests_not_judged_because_sharing_a_dialer_started_while_already_linked_to_x": nExempt.Load(), "checked_states_in_which_packets_for_ax_had_reached_y": nYAnswered.Load()}
-	run.Cov["events"] = []string{"bind:X", "bind:Y", "bind:- (unbind)", "dialaddr (Controller.DialPeerAddr(X,{aX}))", "dialtpt+/- (DialTptAddr directive)", "est+/- (EstablishLinkWithPeer(\"\",X) directive)", "drop (remote side closes its links)", "tick (120 s virtual)"}
+	run.Cov["events"] = []string{"bind:X", "bind:Y", "bind:- (unbind)", "dialaddr (Controller.DialPeerAddr(X,{aX}))", "dialtpt+/- (DialTptAddr directive)", "est+/- (EstablishLinkWithPeer(\"\",X) directive)", "peerdial (the node serving aX dials L itself: an incoming session at L from address aX)", "drop (remote side closes its links)", "tick (120 s virtual)"}
 	if run.NViolations() == 0 && (nSuccess.Load() == 0 || nHorizon.Load() == 0 || nYAnswered.Load() == 0) {
 		evid.Fatal("vacuous exploration: %v", run.Cov["counters"])
 	}
@@ -583,5 +603,9 @@ func TestC05(t *testing.T) {
 		"the horizon of 120 virtual seconds exceeds stale-link idle time-out (2 x 10 s) + maximal default dial back-off (20 s) + handshake time-out (5 s); states are de-duplicated on bindings, link tables, dialer results and request values, not on back-off timer phase",
 		"histories are not extended past their first violation; event orders are explored, not interleavings inside one settling step",
 	)
+	for _, p := range qnet.Panics() {
+		run.Violation("transport-panics", "the transport's accept/execute loop panicked (this takes the process down): "+p, "transport-panic")
+		break
+	}
 	run.Finish(t)
 }
